@@ -40,7 +40,7 @@ func newEngine(tier string) (*Engine, error) {
 	// fail closed: every contract must resolve to a function (interface contracts excepted)
 	for _, k := range cs.Order {
 		c := cs.Funcs[k]
-		if P.Funcs[k] == nil && !strings.HasPrefix(c.Trusted, "interface") {
+		if P.Funcs[k] == nil && !strings.HasPrefix(c.Trusted, "interface") && !c.IsFuncType {
 			e.errs = append(e.errs, fmt.Sprintf("%s: contract target %s does not exist in the current tree", c.Pos, k))
 		}
 	}
@@ -50,7 +50,7 @@ func newEngine(tier string) (*Engine, error) {
 func (e *Engine) newVC(fn *ssa.Function, c *Contract, prop string) *VC {
 	vc := &VC{P: e.P, CS: e.CS, B: NewBuilder(), fn: fn, c: c, prop: prop, notes: map[string]bool{},
 		epochs: map[int]epochMerge{}, sortOf: map[string]Sort{}, typeIDs: map[string]int{}, strConsts: map[string]*Term{},
-		counters: map[string]int{}, factSeen: map[*Term]bool{}, ghostParent: map[int]int{}, factIndex: map[*Term]int{}, varMemo: map[*Term]*big.Int{}, varIDs: map[*Term]int{}, swarDone: map[string]bool{}}
+		counters: map[string]int{}, factSeen: map[*Term]bool{}, ghostParent: map[int]int{}, factIndex: map[*Term]int{}, varMemo: map[*Term]*big.Int{}, varIDs: map[*Term]int{}, swarDone: map[string]bool{}, cleanVars: map[*Term]bool{}}
 	return vc
 }
 
@@ -132,6 +132,22 @@ func (e *Engine) verifyFunction(fn *ssa.Function, c *Contract, prop string) ([]*
 func (e *Engine) verifyFunctionIn(P *Program, fn *ssa.Function, c *Contract, prop, tag string) ([]*Obligation, []string, error) {
 	var obls []*Obligation
 	notes := map[string]bool{}
+	if c.Implements != "" {
+		// the function is a value of a named function type: it must satisfy that type's contract too
+		ftc := e.CS.Funcs["functype:"+c.Pkg+"."+c.Implements]
+		if ftc == nil {
+			return nil, nil, fmt.Errorf("%s implements unknown functype %s", c.Key, c.Implements)
+		}
+		m := *c
+		m.Requires = append(append([]*Clause{}, ftc.Requires...), c.Requires...)
+		m.Ensures = append(append([]*Clause{}, ftc.Ensures...), c.Ensures...)
+		m.Assigns, m.HasAssigns = ftc.Assigns, ftc.HasAssigns
+		m.Reads, m.HasReads = ftc.Reads, ftc.HasReads
+		if len(m.Params) == 0 {
+			m.Params = ftc.Params
+		}
+		c = &m
+	}
 	cases := expandSplits(c)
 	for _, sc := range cases {
 		vc := e.newVC(fn, c, prop)
@@ -292,6 +308,7 @@ func (vc *VC) runTop(sc splitCase) error {
 		vc.note("axiom: %s", a.Text)
 	}
 	ctx.declareRegions = true
+	ctx.assumeMode = true // poolfree(...) in a precondition is an assumption about the caller's state
 	for _, cl := range vc.c.Requires {
 		g, err := ctx.evalBoolSafe(cl.E)
 		if err != nil {
@@ -300,6 +317,7 @@ func (vc *VC) runTop(sc splitCase) error {
 		st.pc = B.And(st.pc, g)
 	}
 	ctx.declareRegions = false
+	ctx.assumeMode = false
 	if vc.restOf != nil {
 		t, err := ctx.evalIntSafe(vc.restOf.E)
 		if err != nil {
@@ -746,6 +764,15 @@ func cmdLoops(args []string) int {
 		}
 	}
 	return 0
+}
+
+func isGlobalInv(cl *Clause) bool {
+	for _, p := range cl.Props {
+		if p == "global" {
+			return true
+		}
+	}
+	return false
 }
 
 func isUnverified(cl *Clause) bool {
